@@ -110,6 +110,10 @@ func init() {
 		ex.assume(Not(region))
 		return falseT
 	})
+	setIntrinsic(hpath+"vIsOpen", func(ex *Exec, fn *ssa.Function, a []Value) Value {
+		id := ex.argName(a[0])
+		return mkBool(ex.W.isOpenFinding(id) && ex.knownMode != id)
+	})
 	setIntrinsic(hpath+"vAllocBound", func(ex *Exec, fn *ssa.Function, a []Value) Value {
 		ex.allocBound = int64(ex.concInt(a[0].(*Term)))
 		return nil
